@@ -68,10 +68,12 @@ ParamsCover == {[Default(TRUE) EXCEPT !.lm = <<1, 4>>], [Default(TRUE) EXCEPT !.
 MixMovesT(q) == {R(g, d, B, B, "c") : g \in {0 - 2, 1, 16, 17}, d \in {0, 5, 9}}
                 \cup {R(2, 2, 4, 4, "c"), R(0 - 6, 2, 4, 4, "c"), R(0, 0, B, B, "s")}
                 \cup {D(g, x, B, B, "c") : g \in {0, 4}, x \in {0, 8}}
+                \* overlapping lines (leading smaller than the glyph height): at line_margin 0 they still join
+                \cup {D(0 - 2, 0, B, B, "c"), D(0 - 1, 0, B, B, "c"), D(0 - 2, 1, B, B, "c")}
                 \cup {C(8, 0, B, B, "c"), A(600, 600, B, B, "c"), A(508, 100, B, B, "c"), Other}
 MixMovesQ(q) == {R(g, d, B, B, "c") : g \in {1, 16}, d \in {0, 5}}
                 \cup {R(0 - 6, 2, 4, 4, "c"), R(0, 0, B, B, "s")}
-                \cup {D(4, 0, B, B, "c"), D(0, 8, B, B, "c")}
+                \cup {D(4, 0, B, B, "c"), D(0, 8, B, B, "c"), D(0 - 2, 0, B, B, "c")}
                 \cup {C(8, 0, B, B, "c"), A(600, 600, B, B, "c"), A(508, 100, B, B, "c"), Other}
 
 \* ------------------------------------------------------------------ boxes: find_neighbors
